@@ -98,7 +98,11 @@ class SymmetryTranslator:
                 if in_aggregate:
                     # create new rule and extend condition with new predicate
                     aux_body = self._create_count(sym, self._aux_rules)
-                    args = [x for x in aux_body[0].atom.symbol.arguments if x.name != "_"]
+                    args = [
+                        x
+                        for x in aux_body[0].atom.symbol.arguments
+                        if not (x.ast_type == ASTType.Variable and x.name == "_")
+                    ]
                     pred = self.unique_names.new_auxpredicate(len(args))
                     head_lit = Literal(LOC, Sign.NoSign, SymbolicAtom(Function(LOC, pred.name, args, False)))
                     self._aux_rules.append(Rule(LOC, head_lit, aux_body))
